@@ -56,6 +56,15 @@ def hand_instances():
         [I("SWAP2"), I("SWAP1"), I("SSTORE"), I("SLOAD")],
         [I("SWAP3"), I("SWAP1"), I("SWAP2"), I("MSTORE"), P(32), I("SWAP1"), I("KECCAK256")],
         [I("SWAP1"), I("DUP1"), I("MLOAD"), I("SWAP2"), I("SWAP1"), I("MSTORE8")],
+        # chains load -> store -> load in which the second load's ADDRESS is the first load's result and the first
+        # address comes from an instruction (a PUSH), not from the initial stack: the ordering tuples that are implied
+        # by data flow are pruned, the others must stay
+        [P(0x40), I("MLOAD"), I("SWAP2"), I("MSTORE"), I("MLOAD")],
+        [P(1), I("SLOAD"), I("SWAP2"), I("SSTORE"), I("SLOAD")],
+        [P(0x40), I("MLOAD"), I("SWAP2"), I("MSTORE8"), I("MLOAD")],
+        [P(0x40), I("MLOAD"), I("DUP1"), I("SWAP3"), I("MSTORE"), I("MLOAD")],
+        [P(0), I("MLOAD"), I("MLOAD"), I("SWAP2"), I("MSTORE")],
+        [P(0), I("MLOAD"), I("SWAP2"), I("MSTORE"), P(0), I("MLOAD")],
     ]
 
 
